@@ -60,35 +60,61 @@ def toTSG (g : TearSheet.TearSheetGenerator) : G.TearSheetGenerator :=
   { Generated.Machines.TearSheetGenerator.init 0 with pnl_returns := toPnL g.pnlReturns }
 theorem ofTSG_toTSG (g : TearSheet.TearSheetGenerator) : ofTSG (toTSG g) = g := rfl
 
+/-! ### Shape-independent proofs
+
+Every proof of this file unfolds *everything generated for the group* (`gen_pnl_returns`: the listed functions, the
+derived `Default`s / constructor and whatever auxiliary functions the translator found by lookup, under whatever names)
+together with the model's definitions and the record maps, and lets `grind` decide what is left (the sign test of the
+return, constructors). The functions of the groups `dataset` (`DataSetSummary::update`) and `drawdown` (the three
+generators) are NOT unfolded: they are rewritten by / generalised through the agreement theorems of
+`KernelsAgree/DataSetSM.lean` and `KernelsAgree/Drawdown.lean`. Nothing depends on the names of helper functions or on
+how the source spells a decision (`if let` or `let .. else { return }`, hoisted locals, reordered independent
+assignments). -/
+
+open Lean.Parser.Tactic in
+/-- everything generated for the group and the C16 model's definitions (projection maps `ofDS` stay folded) -/
+local macro "unfold_pnl" loc:(location)? : tactic => `(tactic|
+  simp only [gen_pnl_returns, TearSheet.calculatePnlReturn, TearSheet.PnLReturns.update, TearSheet.PnLReturns.default,
+    TearSheet.TearSheetGenerator.init, TearSheet.TearSheetGenerator.updateFromPosition, TearSheet.DataSetSummary.default,
+    ofClosed, ofPnL, ofTSG] $[$loc]?)
+
 theorem calculate_pnl_return_agrees (pnlRealised priceEntryAverage quantityAbsMax : Rat) :
     Generated.Machines.calculate_pnl_return pnlRealised priceEntryAverage quantityAbsMax
       = TearSheet.calculatePnlReturn pnlRealised priceEntryAverage quantityAbsMax := by
-  simp only [Generated.Machines.calculate_pnl_return, TearSheet.calculatePnlReturn] <;> grind
+  first | rfl | (unfold_pnl; done) | (unfold_pnl; grind)
 
-/-- `count += 1; sum += x` of `DataSetSummary::update`, whatever `sqrt` does. -/
+/-- `count += 1; sum += x` of `DataSetSummary::update`, whatever `sqrt` does (group `dataset`, unfolded here). -/
 theorem ds_update_proj (sqrt : Rat → Option Rat) (s : G.DataSetSummary) (x : Rat) :
     ofDS (Generated.Machines.DataSetSummary.update sqrt s x) = (ofDS s).update x := by
-  simp only [Generated.Machines.DataSetSummary.update, ofDS, TearSheet.DataSetSummary.update]
+  rcases s with ⟨c, sm, mn, d⟩
+  first
+  | rfl
+  | (simp only [gen_dataset, ofDS, TearSheet.DataSetSummary.update]; done)
+  | (simp only [gen_dataset, ofDS, TearSheet.DataSetSummary.update]; grind)
 
-theorem pnl_default_proj : ofPnL Generated.Machines.PnLReturns.default = TearSheet.PnLReturns.default := rfl
+theorem pnl_default_proj : ofPnL Generated.Machines.PnLReturns.default = TearSheet.PnLReturns.default := by
+  first | rfl | (unfold_pnl; simp only [gen_dataset, ofDS]; done) | (unfold_pnl; simp only [gen_dataset, ofDS]; grind)
 
 /-- `PnLReturns::update` commutes with the projections, for every `sqrt`. -/
 theorem pnl_update_proj (sqrt : Rat → Option Rat) (s : G.PnLReturns) (p : G.PositionExited A I) :
     ofPnL (Generated.Machines.PnLReturns.update sqrt s p) = (ofPnL s).update (ofClosed p) := by
-  simp only [Generated.Machines.PnLReturns.update, TearSheet.PnLReturns.update, ofClosed,
-    calculate_pnl_return_agrees]
-  split <;> simp_all [ofPnL, ds_update_proj]
+  rcases s with ⟨pr, tot, los⟩
+  unfold_pnl
+  grind [ds_update_proj]
 
 theorem tsg_init_proj (t : Int) :
-    ofTSG (Generated.Machines.TearSheetGenerator.init t) = TearSheet.TearSheetGenerator.init := rfl
+    ofTSG (Generated.Machines.TearSheetGenerator.init t) = TearSheet.TearSheetGenerator.init := by
+  first | rfl | (unfold_pnl; simp only [gen_dataset, ofDS]; done) | (unfold_pnl; simp only [gen_dataset, ofDS]; grind)
 
 /-- `TearSheetGenerator::update_from_position` commutes with the projections, for every `sqrt`. -/
 theorem tsg_update_proj (sqrt : Rat → Option Rat) (g : G.TearSheetGenerator) (p : G.PositionExited A I) :
     ofTSG (Generated.Machines.TearSheetGenerator.update_from_position sqrt g p)
       = (ofTSG g).updateFromPosition (ofClosed p) := by
-  simp only [Generated.Machines.TearSheetGenerator.update_from_position,
-    TearSheet.TearSheetGenerator.updateFromPosition]
-  split <;> simp_all [ofTSG, pnl_update_proj]
+  rcases g with ⟨ts, tn, ⟨pr, tot, los⟩, dg, dmean, dmax⟩
+  unfold_pnl
+  -- the drawdown generators (group `drawdown`, not unfolded) do not touch `pnl_returns`, whatever they return
+  generalize Generated.Machines.DrawdownGenerator.update _ _ = r
+  rcases r with ⟨g', _ | d⟩ <;> grind [ds_update_proj]
 
 /-! ## B. Bijection with the complete generator model `Metrics.Gen` -/
 
@@ -113,11 +139,21 @@ theorem toFull_ofFull (g : G.TearSheetGenerator) : toFull (ofFull g) = g := by
   simp [ofFull, toFull, DataSetSM.toSum_ofSum, Drawdown.toGen_ofGen, Drawdown.toMeanGen_ofMeanGen,
     Drawdown.toMaxGen_ofMaxGen]
 
+open Lean.Parser.Tactic in
+/-- everything generated for the group, the complete model's definitions and the record maps; the model's drawdown and
+dataset steps are rewritten into the generated functions of their groups (which stay folded) -/
+local macro "unfold_full" loc:(location)? : tactic => `(tactic|
+  simp only [gen_pnl_returns, TearSheet.calculatePnlReturn, Metrics.Gen.init, Metrics.Gen.updateFromPosition,
+    BarterModel.Drawdown.Sheet.update, BarterModel.Drawdown.Sheet.default, ofFull, ofExit, ofClosed,
+    KernelsAgree.Drawdown.update_agrees, KernelsAgree.Drawdown.mean_update_agrees, KernelsAgree.Drawdown.max_update_agrees,
+    KernelsAgree.Drawdown.toGen_ofGen, KernelsAgree.Drawdown.toMeanGen_ofMeanGen, KernelsAgree.Drawdown.toMaxGen_ofMaxGen,
+    KernelsAgree.Drawdown.toDd_ofDd, KernelsAgree.Drawdown.toTimed] $[$loc]?)
+
 theorem full_init_agrees (t : Int) :
     ofFull (Generated.Machines.TearSheetGenerator.init t) = Metrics.Gen.init t := by
-  simp only [ofFull, Generated.Machines.TearSheetGenerator.init, Metrics.Gen.init, Metrics.Gen.mk.injEq,
-    true_and]
-  exact ⟨rfl, rfl, rfl, rfl⟩
+  first
+  | rfl
+  | (unfold_full; simp only [gen_dataset, gen_drawdown, DataSetSM.summary_default_agrees]; rfl)
 
 /-- `DataSetSummary::update` on an arbitrary GENERATED summary (from `DataSetSM.summary_update_agrees`). -/
 theorem sum_update (sqrt : Rat → Option Rat) (hs : SqrtTotal sqrt) (s : G.DataSetSummary) (x : Rat) :
@@ -137,8 +173,10 @@ theorem pnl_update_full (sqrt : Rat → Option Rat) (hs : SqrtTotal sqrt) (s : G
             (ofSum s.losses).update (fnOf sqrt)
               (TearSheet.calculatePnlReturn p.pnl_realised p.price_entry_average p.quantity_abs_max)
           else ofSum s.losses := by
-  simp only [Generated.Machines.PnLReturns.update, calculate_pnl_return_agrees]
-  split <;> simp_all [sum_update sqrt hs]
+  have hsum := sum_update sqrt hs
+  rcases s with ⟨pr, tot, los⟩
+  unfold_full
+  grind
 
 /-- `TearSheetGenerator::update_from_position` is `Metrics.Gen.updateFromPosition`, all fields (clock,
 `pnl_raw`, both summaries, all three drawdown generators). -/
@@ -146,23 +184,18 @@ theorem full_update_agrees (sqrt : Rat → Option Rat) (hs : SqrtTotal sqrt) (g 
     (p : G.PositionExited A I) :
     ofFull (Generated.Machines.TearSheetGenerator.update_from_position sqrt g p)
       = (ofFull g).updateFromPosition (fnOf sqrt) (ofExit p) := by
-  rcases g with ⟨ts, tn, pr0, dg, dmean, dmax⟩
-  obtain ⟨h1, h2, h3⟩ := pnl_update_full sqrt hs pr0 p
-  simp only [Generated.Machines.TearSheetGenerator.update_from_position, Generated.Machines.Timed.new]
-  generalize Generated.Machines.PnLReturns.update sqrt pr0 p = pr at *
-  have hu := KernelsAgree.Drawdown.update_agrees (ofGen dg) ⟨p.time_exit, pr.pnl_raw⟩
-  rw [KernelsAgree.Drawdown.toGen_ofGen] at hu
-  simp only [toTimed] at hu
-  have hm : ∀ d, (ofMeanGen dmean).update (ofDd d) = ofMeanGen (dmean.update d) := fun d => by
-    rw [KernelsAgree.Drawdown.mean_update_agrees, KernelsAgree.Drawdown.toMeanGen_ofMeanGen,
-      KernelsAgree.Drawdown.toDd_ofDd]
-  have hx : ∀ d, (ofMaxGen dmax).update (ofDd d) = ofMaxGen (dmax.update d) := fun d => by
-    rw [KernelsAgree.Drawdown.max_update_agrees, KernelsAgree.Drawdown.toMaxGen_ofMaxGen,
-      KernelsAgree.Drawdown.toDd_ofDd]
-  simp only [Metrics.Gen.updateFromPosition, ofFull, ofExit, ofClosed, BarterModel.Drawdown.Sheet.update,
-    ← h1, hu]
-  rcases hd : dg.update ⟨pr.pnl_raw, p.time_exit⟩ with ⟨g', _ | d⟩ <;>
-    simp [h2, h3, hm, hx] <;> (split <;> simp_all)
+  have hsum := sum_update sqrt hs
+  rcases g with ⟨ts, tn, ⟨pr, tot, los⟩, dg, dmean, dmax⟩
+  unfold_full
+  -- decide the sign test of the return first (DATA): afterwards both sides speak about the same call of the generated
+  -- `DrawdownGenerator::update` (group `drawdown`, not unfolded), whose result is generalised
+  by_cases hc : TearSheet.calculatePnlReturn p.pnl_realised p.price_entry_average p.quantity_abs_max < 0 <;>
+    simp only [TearSheet.calculatePnlReturn] at hc <;>
+    (try simp only [hc, if_true, if_false, ite_not, not_true_eq_false, not_false_eq_true, ite_self,
+      apply_ite Generated.Machines.PnLReturns.pnl_raw, apply_ite Generated.Machines.PnLReturns.total,
+      apply_ite Generated.Machines.PnLReturns.losses]) <;>
+    generalize Generated.Machines.DrawdownGenerator.update _ _ = r <;>
+    rcases r with ⟨g', _ | d⟩ <;> grind [KernelsAgree.Drawdown.toDd_ofDd]
 
 /-- Everything `./check C16` re-proves against the current source, at once. -/
 theorem pnl_returns_sm_agree :
